@@ -11,6 +11,7 @@ itself (write-ordering guards: a commit-log entry only after the tx record and v
 judges every image against the specification state at that instant."""
 import json, os, sys, concurrent.futures as cf
 sys.path.insert(0, os.path.join(os.path.dirname(os.path.abspath(__file__)), "..", "lib"))
+import time
 import vlib
 from vlib import MachineryFault
 sys.path.insert(0, os.path.dirname(os.path.abspath(__file__)))
@@ -51,11 +52,18 @@ def run(chk, args):
     hargs = ["-seed", str(chk.seed), "-runs", str(runs), "-dir", dd, "-out", tf]
     if thorough:
         hargs.append("-thorough")
+    t0 = time.time()
     out, _ = vlib.run_harness(binp, hargs, timeout=3000)
+    vlib.log("[C03] free-running workloads + crash images: %.0fs" % (time.time() - t0))
     r = json.loads(out)
     segs = split_segments(open(tf).readlines())
     if len(segs) < runs:
         raise MachineryFault("expected at least %d trace segments, got %d" % (runs, len(segs)))
+    nfree = len(segs)
+    t0 = time.time()
+    r2 = store_crash(chk, wd, binp, thorough)
+    vlib.log("[C03] StoreCrash model checking + script replay: %.0fs" % (time.time() - t0))
+    segs += split_segments(open(os.path.join(wd, "script_trace.ndjson")).readlines())
     k = 8
     groups = [segs[i::k] for i in range(k)]
     with cf.ThreadPoolExecutor(k) as ex:
@@ -88,9 +96,12 @@ def run(chk, args):
                               % (ev["mode"], ev["k"], json.dumps(item["verdict"]), ev.get("detail", ""), json.loads(flat[start]).get("cfg")),
                               {"config": json.loads(flat[start]).get("cfg"), "seed": chk.seed, "crash_point": ev["k"], "mode": ev["mode"],
                                "recovered": ev, "logical_trace_prefix": [json.loads(x) for x in flat[start:item["line"]] if '"Recovered"' not in x][-60:]})
-    chk.cov["second_level_segments"] = len(segs) - runs
-    r["traces"] = len(segs)
+    chk.cov["second_level_segments"] = nfree - runs
+    chk.cov["script_segments"] = len(segs) - nfree
+    r["traces"] = nfree
     vlib.absorb(chk, r)
+    r2["traces"] = len(segs) - nfree
+    vlib.absorb(chk, r2)
     chk.cov["crash_images_judged_by_tlc"] = images
     chk.cov["crash_images_rejected"] = judged_bad
     chk.cov["rule"] = ("one crash image per (workload, point between two physical file operations, crash mode); modes: kill (all issued writes), "
@@ -99,6 +110,81 @@ def run(chk, args):
     chk.assumptions += ["power-loss model: per-file prefix of un-fsynced writes + torn last write; no reordering inside a file; created/removed files durable once the "
                         "directory was synced (what the code assumes)", "repeated crashes: a sample of first-level images (6 per workload quick / 30 thorough, preferring points with a precommitted backlog) is continued with three commits and "
                         "every crash point of that continuation, including the recovery run itself, is enumerated (kill and fsynced-only)"]
+
+
+SC_CFG = """CONSTANTS
+  MaxTx = %d
+  MaxGen = %d
+  MaxCrash = %d
+  MaxActive = %d
+  AutoFlush = %s
+  PrevChecked = %s
+  ValuesChecked = %s
+  EmitOn = %s
+SPECIFICATION %s
+INVARIANT %s
+%s
+CHECK_DEADLOCK FALSE
+"""
+
+
+def store_crash(chk, wd, binp, thorough):
+    """spec/StoreCrash.tla: exhaustive check of the physical pipeline + recovery, the two anchor defects, and replay of simulated
+    behaviours on the real store (harness/cmd/c03 -scripts)."""
+    def cfg(maxtx, maxgen, maxcrash, auto, prev, vals, emit, spec, inv, view=True):
+        b = lambda x: "TRUE" if x else "FALSE"
+        return SC_CFG % (maxtx, maxgen, maxcrash, 4, b(auto), b(prev), b(vals), b(emit), spec, inv, "VIEW MCView" if view else "")
+    jobs = {
+        "design": ("StoreCrash", cfg(3, 4, 2 if thorough else 1, True, True, True, False, "Spec", "CrashInv"), []),
+        "anchor-values": ("StoreCrash", cfg(3, 3, 1, True, True, False, False, "Spec", "CrashInv"), []),
+        "sim": ("StoreCrash", cfg(4, 6, 2, False, True, True, True, "SimSpec", "CrashInv Emit", view=False),
+                ["-simulate", "num=%d" % (900 if thorough else 160), "-depth", "40", "-seed", str(chk.seed)]),
+    }
+    if thorough:
+        jobs["anchor-prev"] = ("StoreCrash", cfg(3, 4, 2, False, False, True, False, "Spec", "CrashInv"), [])
+
+    def one(name):
+        mod, c, extra = jobs[name]
+        return name, vlib.run_tlc(mod, "sc_%s.cfg" % name, workers=1 if name == "sim" else 4, timeout=3000, files=[("sc_%s.cfg" % name, c)], extra=extra, tag="C03sc_" + name)
+    with cf.ThreadPoolExecutor(len(jobs)) as ex:
+        results = dict(ex.map(one, list(jobs)))
+    vlib.tlc_must_pass(results["design"], "StoreCrash (design)")
+    chk.add_tlc(results["design"], "StoreCrash MaxTx=3 MaxGen=4 MaxCrash=%d AutoFlush" % (2 if thorough else 1))
+    for name in [n for n in jobs if n.startswith("anchor")]:
+        res = results[name]
+        if not res.violation:
+            raise MachineryFault("StoreCrash %s: the model does not find the defect it was built to find (vacuous model)" % name)
+        chk.cov.setdefault("model_facts", {})[name] = "violated as expected: " + str(res.violation)
+    vlib.tlc_must_pass(results["sim"], "StoreCrash (simulation)")
+    vals = [v["ops"] for v in vlib.printed_json(results["sim"].out)]
+    keys = set(json.dumps(v) for v in vals)
+    maximal, seen = [], set()
+    for v in vals:
+        k = json.dumps(v)
+        if k in seen or any(o != k and o.startswith(k[:-1] + ",") for o in keys):
+            continue
+        seen.add(k)
+        maximal.append(v)
+    maximal = maximal[:600 if thorough else 70]
+    if len(maximal) < 20:
+        raise MachineryFault("StoreCrash simulation produced only %d behaviours" % len(maximal))
+    sf = os.path.join(wd, "scripts.json")
+    json.dump({"scripts": maximal}, open(sf, "w"))
+    dd = os.path.join(wd, "ds")
+    os.makedirs(dd)
+    t0 = time.time()
+    out, _ = vlib.run_harness(binp, ["-scripts", sf, "-dir", dd, "-out", os.path.join(wd, "script_trace.ndjson")], timeout=3000)
+    vlib.log("[C03] script replay of %d behaviours: %.0fs" % (len(maximal), time.time() - t0))
+    r2 = json.loads(out)
+    ctr = r2.get("counters") or {}
+    for need in ("script-frontier-as-predicted", "script-images:inside-sync", "script-recoveries-with-reloaded-backlog", "script-images:power", "script-images:kill"):
+        if not ctr.get(need):
+            raise MachineryFault("script replay is vacuous: counter %s is zero" % need)
+    if ctr.get("script-frontier-differs", 0) + ctr.get("script-identity-differs", 0) > 0:
+        chk.notes.append("StoreCrash predicted a different recovered frontier than the real OpenWith reached in %d of %d recoveries (the images are judged by the Store.tla oracle either way)"
+                         % (ctr.get("script-frontier-differs", 0) + ctr.get("script-identity-differs", 0), ctr.get("script-recoveries", 0)))
+    chk.cov["script_replay"] = {k: v for k, v in ctr.items() if k.startswith("script")}
+    return r2
 
 
 if __name__ == "__main__":
